@@ -125,6 +125,44 @@ class _Rename(ast.NodeTransformer):
         return n
 
 
+def _only_called(fnode, p, lam):
+    """every occurrence of name p in the function is the callee of a positional call matching the lambda's arity"""
+    la = lam.args
+    if la.vararg or la.kwarg or la.kwonlyargs or la.defaults or la.posonlyargs:
+        return False
+    n = len(la.args)
+    called = set()
+    for x in ast.walk(fnode):
+        if isinstance(x, ast.Call) and isinstance(x.func, ast.Name) and x.func.id == p:
+            if len(x.args) != n or x.keywords or any(isinstance(a, ast.Starred) for a in x.args):
+                return False
+            called.add(id(x.func))
+    for x in ast.walk(fnode):
+        if isinstance(x, ast.Name) and x.id == p and id(x) not in called:
+            return False
+    return bool(called)
+
+
+class _Beta(ast.NodeTransformer):
+    """p(a1, .., an) -> body of the lambda bound to p with its parameters replaced (arguments must be evaluated once:
+    each lambda parameter may occur at most once in the body, or the argument is a pure path)"""
+    def __init__(self, lambdas):
+        self.lambdas = lambdas
+
+    def visit_Call(self, n):
+        self.generic_visit(n)
+        if isinstance(n.func, ast.Name) and n.func.id in self.lambdas:
+            lam = self.lambdas[n.func.id]
+            names = [a.arg for a in lam.args.args]
+            sub = dict(zip(names, n.args))
+            for nm, a in sub.items():
+                uses = sum(1 for x in ast.walk(lam.body) if isinstance(x, ast.Name) and x.id == nm)
+                if uses > 1 and not _pure(a):
+                    return n
+            return _Rename({}, sub).visit(copy.deepcopy(lam.body))
+        return n
+
+
 def _pure(e):
     if isinstance(e, (ast.Name, ast.Constant)):
         return True
@@ -156,7 +194,15 @@ def splice(h, binding, context, target, caller_names, tag, nonnull=None):
     pre = []
     subst = {}
     helper_assigned = _assigned_names(h.node)
+    lambdas = {}
     for p, a in binding.items():
+        if isinstance(a, ast.Lambda) and p not in helper_assigned and _only_called(h.node, p, a):
+            lambdas[p] = a
+    if lambdas:
+        body = [_Beta(lambdas).visit(st) for st in body]
+    for p, a in binding.items():
+        if p in lambdas:
+            continue
         if _pure(a) and p not in helper_assigned:
             subst[p] = a
         else:
@@ -300,7 +346,29 @@ def simplify(stmts, nonnull):
                     res.append(new)
                     continue
         res.append(st)
-    return res
+    return _loops_to_comprehensions(res)
+
+
+def _loops_to_comprehensions(stmts):
+    """xs = []; for T in IT: xs.append(E)   ->   xs = [E for T in IT]      (E and IT do not mention xs)"""
+    out = []
+    i = 0
+    while i < len(stmts):
+        st = stmts[i]
+        nxt = stmts[i + 1] if i + 1 < len(stmts) else None
+        if isinstance(st, ast.Assign) and len(st.targets) == 1 and isinstance(st.targets[0], ast.Name) and isinstance(st.value, ast.List) and not st.value.elts \
+                and isinstance(nxt, ast.For) and not nxt.orelse and len(nxt.body) == 1 and isinstance(nxt.body[0], ast.Expr):
+            xs = st.targets[0].id
+            c = nxt.body[0].value
+            if isinstance(c, ast.Call) and isinstance(c.func, ast.Attribute) and c.func.attr == "append" and U(c.func.value) == xs and len(c.args) == 1 and not c.keywords \
+                    and xs not in _used_names(c.args[0]) and xs not in _used_names(nxt.iter):
+                comp = ast.ListComp(elt=c.args[0], generators=[ast.comprehension(target=nxt.target, iter=nxt.iter, ifs=[], is_async=0)])
+                out.append(ast.Assign(targets=[ast.Name(id=xs, ctx=ast.Store())], value=comp, lineno=getattr(st, "lineno", 0), col_offset=0))
+                i += 2
+                continue
+        out.append(st)
+        i += 1
+    return out
 
 
 _NONNULL_CALLS = ("np.array", "np.asarray", "np.zeros", "np.ones", "np.empty", "np.full", "np.arange", "np.concatenate", "np.unique", "np.where")
@@ -354,6 +422,70 @@ def nonnull_names(repo, f):
     return out
 
 
+def _hoistable_calls(e):
+    """calls nested in expression e that are evaluated unconditionally exactly once (not under lambda, comprehension,
+    conditional expression or a short-circuit operator's later operands)"""
+    out = []
+
+    def go(n, top):
+        if isinstance(n, (ast.Lambda, ast.ListComp, ast.SetComp, ast.DictComp, ast.GeneratorExp, ast.IfExp)):
+            if isinstance(n, ast.IfExp):
+                go(n.test, False)
+            return
+        if isinstance(n, ast.BoolOp):
+            go(n.values[0], False)
+            return
+        if isinstance(n, ast.Call) and not top:
+            out.append(n)
+        for c in ast.iter_child_nodes(n):
+            go(c, False)
+    go(e, True)
+    return out
+
+
+def _hoist(st, repo, f, new_funcs, resolve_helper, bind_args, caller_names, counter, report, q):
+    """`x = g(h(a))` with h a new helper -> `t = h(a)` spliced, then `x = g(t)`"""
+    for call in _hoistable_calls(st.value):
+        h, skip = resolve_helper(repo, f, call)
+        if h is None or h.qname not in new_funcs or h.node is f.node or not splicable(h):
+            continue
+        b = bind_args(h, skip, call)
+        if b is None:
+            continue
+        counter[0] += 1
+        tag = f"h{counter[0]}"
+        tmp = f"{h.node.name.lstrip('_')}__{tag}"
+        tgt = [ast.Name(id=tmp, ctx=ast.Store())]
+        rep = splice(h, b, "assign", tgt, caller_names, tag, nonnull=nonnull_names(repo, f))
+        if rep is None:
+            continue
+
+        class Sub(ast.NodeTransformer):
+            def visit_Call(self, n):
+                if n is call:
+                    return ast.Name(id=tmp, ctx=ast.Load())
+                self.generic_visit(n)
+                return n
+        st2 = Sub().visit(st)
+        ast.fix_missing_locations(st2)
+        # a helper whose result is one expression: put the expression back in place (keeps the caller's statement shape)
+        if len(rep) == 1 and isinstance(rep[0], ast.Assign) and U(rep[0].targets[0]) == tmp:
+            val = rep[0].value
+
+            class Back(ast.NodeTransformer):
+                def visit_Name(self, n):
+                    return val if n.id == tmp and isinstance(n.ctx, ast.Load) else n
+            st2 = Back().visit(st2)
+            ast.fix_missing_locations(st2)
+            rep = []
+        for x in rep:
+            caller_names.update(_used_names(x))
+        caller_names.add(tmp)
+        report.setdefault(q, []).append(h.qname)
+        return rep + [st2]
+    return None
+
+
 def inline_new_helpers(repo, new_funcs, resolve_helper, bind_args, max_rounds=2):
     """transform repo.funcs' ASTs in place; returns {caller qname: [helper qnames spliced]}"""
     report = {}
@@ -382,6 +514,20 @@ def inline_new_helpers(repo, new_funcs, resolve_helper, bind_args, max_rounds=2)
                         call, context, target = st.value, "assign", st.targets
                     elif isinstance(st, ast.Return) and isinstance(st.value, ast.Call):
                         call, context = st.value, "return"
+                    if call is None and isinstance(st, (ast.Expr, ast.Assign, ast.Return, ast.AugAssign)) and getattr(st, "value", None) is not None:
+                        hoisted = _hoist(st, repo, f, new_funcs, resolve_helper, bind_args, caller_names, counter, report, q)
+                        if hoisted is not None:
+                            out += hoisted
+                            changed = True
+                            continue
+                    elif call is not None:
+                        h0, _ = resolve_helper(repo, f, call)
+                        if (h0 is None or h0.qname not in new_funcs) and getattr(st, "value", None) is not None:
+                            hoisted = _hoist(st, repo, f, new_funcs, resolve_helper, bind_args, caller_names, counter, report, q)
+                            if hoisted is not None:
+                                out += hoisted
+                                changed = True
+                                continue
                     if call is not None:
                         h, skip = resolve_helper(repo, f, call)
                         if h is not None and h.qname in new_funcs and h.node is not f.node and splicable(h):
